@@ -43,7 +43,6 @@ Domain == IF Mode = "c01" THEN DomainC01 ELSE DomainAll
 \* combinations inside the walk that C01 does not quantify over
 Supported(c) == /\ (c.absOn = 1 \/ c.relOn = 1)
                 /\ (c.method = 0 => c.cacheDP = 1 /\ c.cacheDG = 1)
-                /\ c.cacheDP = c.cacheDG
 
 Default == [ nr_exp |-> 4, ntheta_exp |-> 0, divideBy2 |-> 0, maxLevels |-> 0, DirBC |-> 0, geometry |-> 0, problem |-> 0,
              ext |-> 0, fmg |-> 0, fmgIts |-> 1, fmgCycle |-> 0, cycle |-> 0, pre |-> 1, post |-> 1, maxIter |-> 6, norm |-> 0,
